@@ -444,7 +444,6 @@ func checkC07Arch(raw json.RawMessage) (ev.Result, error) {
 	if err := json.Unmarshal(raw, &c); err != nil {
 		return ev.Result{}, ev.Inconclusivef("bad case: %v", err)
 	}
-	withTables := map[string]bool{"arm": true, "386": true, "i386": true, "amd64": true, "x86_64": true, "x32": true, "arm64": true, "aarch64": true}
 	var info *arch.Info
 	var err error
 	var pan any
@@ -455,16 +454,26 @@ func checkC07Arch(raw json.RawMessage) (ev.Result, error) {
 	if pan != nil {
 		return ev.Result{}, fmt.Errorf("GetInfo(%q) panicked: %v", c.Name, pan)
 	}
-	has := withTables[strings.ToLower(c.Name)]
+	class, _ := archClass(c.Name)
 	if c.Name == "" {
-		has = withTables[runtime.GOARCH]
+		class, _ = archClass(runtime.GOARCH)
 	}
-	if has {
+	has := class == "alias"
+	switch class {
+	case "alias":
 		if err != nil || info == nil || len(info.SyscallNames) == 0 || len(info.SyscallNumbers) == 0 {
 			return ev.Result{}, fmt.Errorf("architecture %q has tables but GetInfo returned (%v, %v)", c.Name, info, err)
 		}
-	} else if err == nil || info != nil {
-		return ev.Result{}, fmt.Errorf("architecture %q has no syscall tables but GetInfo returned an Info without error (a policy would compile to a filter that matches nothing)", c.Name)
+	case "no-tables":
+		if err == nil || info != nil {
+			return ev.Result{}, fmt.Errorf("architecture %q has no syscall tables but GetInfo returned an Info without error (a policy would compile to a filter that matches nothing)", c.Name)
+		}
+	default:
+		// unknown spelling: rejected, or resolved to something with tables - never an Info without tables
+		if err == nil && (info == nil || len(info.SyscallNames) == 0 || len(info.SyscallNumbers) == 0) {
+			return ev.Result{}, fmt.Errorf("GetInfo(%q) returns an Info without syscall tables and no error", c.Name)
+		}
+		return ev.Result{Classes: []string{"arch-lookup", "arch-name-of-unsettled-status"}}, nil
 	}
 	return ev.Result{Classes: []string{"arch-lookup"}, NonTrivial: !has}, nil
 }
